@@ -143,4 +143,8 @@ def build_wiring(ctx, entries=('create_constructor', 'create_cpp_port_helpers'))
         walk(ev, val, [], name, loops, texts)
         w.loops[name] = loops
         w.texts[name] = texts
+    if ev.opaque_log:
+        # fail closed: a construct the template evaluator does not model makes every verdict on the wiring an artefact
+        raise AnalysisError('the port wiring generators contain constructs the template evaluator does not model: '
+                            + '; '.join(sorted(set(ev.opaque_log))[:4]))
     return w
